@@ -454,6 +454,19 @@ func (fr *Frame) frameObligations(r retRec, ri int, entry *State) {
 		if item == "" || item == "nothing" || strings.HasPrefix(item, "ghost ") {
 			continue
 		}
+		if strings.HasPrefix(item, "array ") {
+			te, err := ParseType(strings.TrimSpace(item[6:]))
+			if err != nil {
+				panic(bindErr("bad modifies item " + item))
+			}
+			delete(written, vc.arrHeapVar(vc.eng.resolveType(te, env.pkg)))
+			continue
+		}
+		if strings.HasPrefix(item, "type ") {
+			t := vc.eng.resolveType(mustParseType(strings.TrimSpace(item[5:])), env.pkg)
+			delete(written, vc.heapVar(t))
+			continue
+		}
 		if strings.HasPrefix(item, "global ") {
 			g := strings.TrimSpace(item[7:])
 			for n := range written {
